@@ -4,6 +4,7 @@ import (
 	"fmt"
 	"go/types"
 	"math/big"
+	"strings"
 )
 
 // ----- naming ---------------------------------------------------------------
@@ -251,6 +252,7 @@ func (fr *Frame) loadElem(st *State, obj, idx Term, et types.Type, lo, hi int, r
 }
 
 func (fr *Frame) storeElem(st *State, obj, idx Term, et types.Type, lo, hi int, v Val) {
+	v = fr.opaque(st, v)
 	l := fr.en.layout(et)
 	if hi < 0 {
 		lo, hi = 0, len(l)
@@ -348,6 +350,7 @@ func (fr *Frame) load(st *State, p Val, t types.Type) Val {
 }
 
 func (fr *Frame) store(st *State, p Val, t types.Type, v Val) {
+	v = fr.opaque(st, v)
 	switch p.K {
 	case KCellPtr:
 		st.cells[p.Cell] = v
@@ -400,6 +403,12 @@ func (fr *Frame) loadGlobal(st *State, p Val) Val {
 		fr.ctx.Raw("errsentinel-ax:"+name, fmt.Sprintf("(assert (= %s (- %d)))", ref.S, id+1000))
 		return Val{K: KNormal, T: t, C: []Term{IntT(int64(tag)), ref}}
 	}
+	fr.en.computeImmutable(g.Pkg)
+	if fr.en.neverWritten[g] && strings.HasPrefix(g.Pkg.Pkg.Path(), fr.en.ModulePath) && !fr.en.writtenAnywhere(g) {
+		// never assigned anywhere in its package (its address is only loaded): the zero value
+		fr.top.note("global " + name + " is never assigned in its package: zero value")
+		return fr.en.zero(t)
+	}
 	v := Val{K: KNormal, T: t, C: make([]Term, len(l))}
 	for k, c := range l {
 		hn := "G:" + name + c.Path
@@ -422,4 +431,15 @@ func (fr *Frame) storeGlobal(st *State, p Val, v Val) {
 		fr.top.heapSorts[hn] = c.Sort
 		st.heaps[hn] = v.C[k]
 	}
+}
+
+// opaque turns a closure value into an opaque non-nil reference so that it can live in the
+// heap (calling it later is a call of an unknown function).
+func (fr *Frame) opaque(st *State, v Val) Val {
+	if v.K != KClosure {
+		return v
+	}
+	ref := fr.newObject(st, "closure")
+	fr.top.closures[ref.S] = v
+	return scalar(v.T, ref)
 }
